@@ -42,6 +42,12 @@ Proof. intros t r H. unfold nojux in H. cbn [hd_is] in H. apply orb_false_iff in
 
 Definition ND (b l : list ptok) : Prop := decl_like_from b l = false.
 
+(* compileTerm's "X ) ( name ) =" heuristic cannot fire here: the operand stack is not empty (the name would not be
+   the only operand) or the left context does not end in ") (" *)
+Definition fp_head (b : list ptok) : bool :=
+  hd_is is_lp b && match b with _ :: m2 :: _ :: _ => is_rp (snd m2) | _ => false end.
+Definition safe (s : st) : Prop := stk s <> [] \/ fp_head (bef s) = false.
+
 Definition strict_ender (t : tok) : bool :=
   match t with TId _ | TNum _ | TRP | TRB => true | _ => false end.
 
@@ -78,11 +84,10 @@ Proof. destruct s; reflexivity. Qed.
 
 (* compileTerm on an identifier *)
 Lemma term_id : forall s l x rest,
-  nojux rest -> ND (bef s) ((l, TId x) :: rest) ->
+  nojux rest -> safe s ->
   term (s, (l, TId x) :: rest) = Some (mkafter s [(l, TId x)] (L (l, TId x)), rest).
 Proof.
-  intros s l x rest Hj Hd. unfold ND in Hd. cbn [decl_like_from snd] in Hd.
-  apply orb_false_iff in Hd. destruct Hd as [Hfp _].
+  intros s l x rest Hj Hs.
   unfold term. cbn [snd].
   assert (Hz1 : skip_decl (s, (l, TId x) :: rest) = (s, (l, TId x) :: rest)).
   { unfold skip_decl. destruct (hd_is is_lp (bef s)); reflexivity. }
@@ -91,10 +96,15 @@ Proof.
   { cbn [skip_to_last_name]. destruct rest as [|t2 r2]; [reflexivity|].
     rewrite (nojux_name _ _ Hj). reflexivity. }
   rewrite Hz2.
-  match goal with |- context [fnptr_pattern ?z] =>
-    assert (Hfp' : fnptr_pattern z = false)
-      by (unfold fnptr_pattern in *; cbn [push set_stk bef st0] in *; exact Hfp) end.
-  rewrite Hfp'. rewrite !andb_false_r.
+  match goal with |- context [(?a && ?b && fnptr_pattern ?z)%bool] =>
+    assert (Hfp' : (a && b && fnptr_pattern z)%bool = false) end.
+  { destruct Hs as [Hs|Hs].
+    - destruct (stk s) eqn:E; [contradiction|]. unfold push, set_stk. cbn [stk length]. rewrite E. reflexivity.
+    - unfold fnptr_pattern, push, set_stk. cbn [bef]. unfold fp_head in Hs.
+      destruct rest as [|t1 [|t2 r]]; rewrite ?andb_false_r; try reflexivity.
+      destruct (bef s) as [|m1 [|m2 [|m3 b3]]]; rewrite ?andb_false_r; try reflexivity.
+      cbn [hd_is] in Hs. destruct (is_lp (snd m1)), (is_rp (snd m2)); try discriminate; rewrite ?andb_false_r; reflexivity. }
+  rewrite Hfp'.
   unfold adv, push, set_bef, set_stk, mkafter. cbn [stk bef depth asgn rev app].
   destruct rest as [|a [|b r]]; try reflexivity.
   rewrite (nojux_name _ _ Hj). reflexivity.
